@@ -183,6 +183,30 @@ def run(ctx):
     from .. import a10
     a10.scratch_buffer_rule(ctx, "C05.R10", r"^<?noodles_bam::", 2)
 
+    ctx.rule("C05.R11", "A7 the overflow-CIGAR placeholder `kSmN` carries k = l_seq: encode() hands overflowing_write_cigar_op_count the same "
+                        "Sequence::len() it writes as l_seq (both decoders recognise the placeholder only when k equals l_seq); the CIGAR's read "
+                        "length differs from it whenever SEQ is `*` or the CIGAR consumes no read base")
+    fe11 = ctx.anchor("C05.R11", "noodles_bam::record::codec::encoder::encode")
+    if fe11 is not None:
+        ctx.saw_fn(fe11)
+        ow = R.find_calls(fe11, r"encoder::cigar::overflowing_write_cigar_op_count$")
+        wl = R.find_calls(fe11, r"encoder::sequence::write_length$")
+        is_len = R.mk_pred(r"alignment::record::sequence::Sequence::len$")
+        if not ow or not wl:
+            ctx.violation("C05.R11", "C05.R11/ANCHOR-MISSING/encode/calls", "encode() no longer calls overflowing_write_cigar_op_count / sequence::write_length", fe11.loc())
+        else:
+            for b11, c11 in ow:
+                a_ok = len(c11["args"]) >= 2 and R.derives_from_call(fe11, c11["args"][1], is_len) and \
+                    not R.derives_from_call(fe11, c11["args"][1], R.mk_pred(r"Cigar::read_length$"))
+                l_ok = any(len(c["args"]) >= 2 and R.derives_from_call(fe11, c["args"][1], is_len) for _b, c in wl)
+                if a_ok and l_ok:
+                    ctx.ok("C05.R11", fe11.key, "placeholder length and l_seq both come from Sequence::len()", fe11.loc(b11))
+                else:
+                    ctx.violation("C05.R11", "C05.R11/placeholder-length-not-l_seq/" + fe11.key,
+                                  "encode() gives overflowing_write_cigar_op_count a length that does not come from Sequence::len() (the value "
+                                  "written as l_seq): a record with more than 65535 CIGAR operations and SEQ `*` (or a CIGAR without read "
+                                  "bases) is written with a placeholder neither decoder recognises", fe11.loc(b11))
+
     ctx.rule("C05.R6", "A7 dec∘enc = id exhaustively for CIGAR kind / aux type / array subtype tables; sentinels agree")
     a7.table_agreement(ctx, "C05.R6", {"noodles_bam"}, 3)
     R.const_rule(ctx, "C05.R6", "UNMAPPED_BIN", {"b": B + "record::codec::encoder::bin::UNMAPPED_BIN"},
